@@ -31,3 +31,8 @@ def batch_oracles(merged, mode):
         out.append(("c14.coin_fairness", z <= 6.2,
                     {"statistic": "fair_outcome_ones", "n": n, "ones": ones, "z": z, "threshold_sigma": 6.2}))
     return out
+
+
+# reach guard: a full-size batch in which one of these never fired means the workload or the
+# harness has rotted (exit 2, never a pass)
+REQUIRED_REACH = ['coin_force', 'rejected_op', 'backward_impossible_record', 'impossible_postselection', 'measure_layer_on_mixed_state', 'circuit_forward_on_mixed_state', 'backward_with_record:own', 'backward_with_record:true', 'backward_missing_or_wrong_length_record', 'determined_midcircuit_outcome']
